@@ -109,6 +109,9 @@ impl C04 {
         C04 { cfg: cfg.clone(), ledger: Ledger::default(), open: vec![], passes: 0, blocks: 0, exits: 0, advanced: false }
     }
     fn do_build(&mut self, res: &'static str, inbound: bool, batch: u32) -> Result<bool, String> {
+        // the declared resource type varies with the shape of the entry (one node per resource
+        // name, whatever type its entries declare)
+        set_entry_resource_type(if batch == 2 { 1 } else if batch == 3 { 2 } else { 0 });
         let t = now_ms();
         let tt = if inbound { TrafficType::Inbound } else { TrafficType::Outbound };
         self.ledger.touch(res);
